@@ -55,7 +55,10 @@ Elapse(e) == IF e.t + 1 > now THEN e.t + 1 - now ELSE 0
 EnvAt(e)  == EnvTime(env, hi, Elapse(e))
 NowAt(e)  == Max(now, e.t + 1)
 
+\* (the harness marks a release "stale" when the packet was handed to a next writer the stream had BEFORE it was bound again;
+\* streams are bound again only at quiescent points, so every later packet belongs to the new writer)
 RelOK(e) == /\ st.q # <<>>
+            /\ "stale" \notin DOMAIN e
             /\ LET c == Pk(Head(st.q)) IN
                /\ c.pkt = e.pkt /\ c.s = e.s /\ c.bits = e.bits
                /\ (IsTB(st.kind) => EnvOK(EnvRelease(EnvAt(e), e.bits)))
